@@ -2,6 +2,7 @@
 from __future__ import annotations
 
 import itertools
+import math
 
 import numpy as np
 
@@ -20,7 +21,7 @@ RULE = ("n = 1..12, ASYMMETRIC non-negative flow / distance matrices: random "
         "non-trivial = distinct (F, D, p) with n >= 3 and F, D both "
         "non-symmetric")
 LEVEL_ASSUMPTIONS = ["oracle: Python big-int double sum"]
-REQUIRED = {"evaluations": 3000, "dtype_edge_instances": 100,
+REQUIRED = {"tag[almost-symmetric]": 20, "evaluations": 3000, "dtype_edge_instances": 100,
             "value_equals_upper_bound": 50, "text_instances": 100,
             "instances_all_perms": 30}
 
@@ -49,7 +50,7 @@ def trivial(F, D):
 
 
 def gen(rng, n):
-    kind = int(rng.integers(8))
+    kind = int(rng.integers(10))
     F = [[0] * n for _ in range(n)]
     D = [[0] * n for _ in range(n)]
     tag = "random"
@@ -73,6 +74,23 @@ def gen(rng, n):
                 if F[p][q] == 0 and rng.integers(2):
                     F[p][q] = 1
         tag = "edge"
+    elif kind in (8, 9) and n >= 2:
+        # almost symmetric: large symmetric entries, a few mirror entries
+        # differ by 1..3 (and a non-zero diagonal); kind 9: exactly symmetric
+        tag = "almost-symmetric" if kind == 8 else "symmetric"
+        hi = int(rng.choice([100, 10 ** 5, 3 * 10 ** 6]))
+        lim = max(1, int(math.isqrt((10 ** 15 - 1) // (n * n))))
+        hi = min(hi, lim)
+        for M in (F, D):
+            for i in range(n):
+                for j in range(i + 1):
+                    v = int(rng.integers(hi // 2, hi + 1))
+                    M[i][j] = M[j][i] = v
+        if kind == 8:
+            for M in (F, D):
+                for _ in range(int(rng.integers(1, 4))):
+                    i, j = (int(v) for v in rng.choice(n, 2, replace=False))
+                    M[i][j] += int(rng.integers(1, 4))
     elif kind == 2:
         tag = "zeros"
         hi = int(rng.choice([1, 9, 1000]))
